@@ -59,3 +59,16 @@ Proof.
     apply andb_true_iff in O2. destruct O2 as (M & NR).
     apply negb_true_iff in NR. split; auto.
 Qed.
+
+Theorem query_safe_sound n p : bounded n p = true -> query_safe n p = true ->
+  forall (e:env) (orc:nat -> bool), e_query e = true -> s_rewrote (exec e orc p st0) = false.
+Proof.
+  intros B OK e orc Q. unfold query_safe in OK. rewrite forallb_forall in OK.
+  assert (EIN : In e envs).
+  { destruct e as [[] [] []]; simpl; auto 10. }
+  specialize (OK e EIN). rewrite forallb_forall in OK.
+  destruct (all_bits_complete n orc) as (l & Hin & _ & Hk).
+  specialize (OK l Hin).
+  assert (EQ : exec e (orc_of l) p st0 = exec e orc p st0) by (apply (exec_ext e p n B); auto).
+  rewrite EQ, Q in OK. simpl in OK. apply negb_true_iff in OK. exact OK.
+Qed.
